@@ -11,7 +11,7 @@ Two semantics-preserving CFG transformations on the JSON facts of one crate:
 Both are exact (modulo unwinding, which no rule looks at): nothing is approximated, so a defect hidden inside a new helper or closure is still seen, at
 the place where it executes. Known functions and the closures of the reference tree (KNOWN_CLOSURE_USES) are left alone because rules name them.
 """
-import copy, json, os, re
+import copy, os, json, os, re
 
 HERE = os.path.dirname(os.path.abspath(__file__))
 KNOWN_FILE = os.path.join(os.path.dirname(HERE), "specs", "known_fns.json")
@@ -204,6 +204,11 @@ def closure_of_operand(b, o, bodies):
     if "closure" not in (o["p"].get("ty") or b["locals"][o["p"]["l"]]["ty"]):
         return None
     d = single_def(b, o["p"]["l"])
+    for _hop in range(4):  # (a closure bound to a name first: `let f = |x| ..; it.any(f)` hands over a copy)
+        if d and d[0] == "rv" and d[3]["k"] == "use" and d[3]["o"]["k"] in ("move", "copy") and not d[3]["o"]["p"]["pr"]:
+            d = single_def(b, d[3]["o"]["p"]["l"])
+        else:
+            break
     if d and d[0] == "rv" and d[3]["k"] == "agg" and d[3].get("ak") == "closure":
         return bodies.get(d[3]["closure"])
     return None
@@ -219,7 +224,7 @@ def env_rvalue(gb, closure_operand):
 
 def literal_array_source(b, o):
     """operands of the array literal an iterator operand is created from ([a, b].into_iter() / .iter()), or None"""
-    for _ in range(6):
+    for _ in range(8):
         if o["k"] not in ("move", "copy") or o["p"]["pr"]:
             return None
         d = single_def(b, o["p"]["l"])
@@ -235,6 +240,9 @@ def literal_array_source(b, o):
             if rv["k"] == "ref" and not rv["p"]["pr"]:
                 o = {"k": "copy", "p": rv["p"]}
                 continue
+            if rv["k"] == "cast" and "Unsize" in str(rv.get("ck", "")) and rv["o"]["k"] in ("move", "copy"):
+                o = rv["o"]  # `&[T; N]` handed over as `&[T]`
+                continue
             return None
         fn = callee_of(d[2])
         if fn is not None and fn["path"] in ("std::iter::IntoIterator::into_iter", "core::slice::<impl [T]>::iter") and d[2]["args"]:
@@ -242,6 +250,48 @@ def literal_array_source(b, o):
             continue
         return None
     return None
+
+
+def chain_sources(b, o, depth=0):
+    """`a.chain(b).chain(c)` as the list of its plain sources [(operand, type, block of the chain call | None)], or None when `o` is not such a chain"""
+    if depth > 6 or o["k"] not in ("move", "copy") or o["p"]["pr"]:
+        return None
+    d = single_def(b, o["p"]["l"])
+    if d is None:
+        return None
+    if d[0] == "rv":
+        rv = d[3]
+        if rv["k"] == "use" and rv["o"]["k"] in ("move", "copy") and not rv["o"]["p"]["pr"]:
+            return chain_sources(b, rv["o"], depth + 1)
+        return None
+    fn = callee_of(d[2])
+    if fn is None or fn["path"] != ITER + "chain" or len(d[2]["args"]) != 2 or len(fn.get("gargs") or []) != 2:
+        return None
+
+    def plain(x, ty):
+        """one side of a chain: a chain itself, or a value that is iterated as it is"""
+        sub = chain_sources(b, x, depth + 1)
+        if sub is not None:
+            return sub
+        if x["k"] not in ("move", "copy") or x["p"]["pr"]:
+            return None
+        dx = single_def(b, x["p"]["l"])
+        if dx is not None and dx[0] == "call":
+            fx = callee_of(dx[2])
+            if fx is not None and fx["path"] == "std::iter::IntoIterator::into_iter" and len(dx[2]["args"]) == 1:
+                inner_ty = (fx.get("gargs") or [""])[0]
+                if inner_ty.startswith(("std::option::Option<", "std::vec::Vec<")):
+                    return [(dx[2]["args"][0], inner_ty, dx[1])]
+            if fx is not None and fx["path"].startswith(ITER) and fx["path"][len(ITER):] in STAGES + ("chain", "rev", "skip", "take", "enumerate", "zip", "peekable"):
+                return None  # a side with stages of its own
+        if ty.startswith(("std::option::Option<", "std::vec::Vec<", "std::option::IntoIter<", "std::vec::IntoIter<", "std::slice::Iter<", "core::slice::Iter<")):
+            return [(x, ty, None)]
+        return None
+    left = plain(d[2]["args"][0], fn["gargs"][0])
+    right = plain(d[2]["args"][1], fn["gargs"][1])
+    if left is None or right is None:
+        return None
+    return left + right + [(None, None, d[1])]
 
 
 def stage_fn(b, o, bodies):
@@ -321,6 +371,20 @@ def chain_of(b, operand, bodies):
         o = d[2]["args"][0]
     stages.reverse()
     return stages, o
+
+
+def elem_ty_of_iter(ity):
+    """element type of the std iterators whose type says it"""
+    ity = (ity or "").strip()
+    for head, by_ref in (("std::vec::IntoIter<", False), ("std::array::IntoIter<", False), ("std::option::IntoIter<", False), ("std::slice::Iter<", True),
+                         ("core::slice::Iter<", True), ("std::collections::hash_set::IntoIter<", False), ("std::collections::btree_set::IntoIter<", False)):
+        if ity.startswith(head):
+            inner = ity[len(head):-1]
+            if by_ref:
+                inner = re.sub(r"^'\w+,\s*", "", inner)
+            a = _first_arg(inner)
+            return ("&" + a) if by_ref else a
+    return None
 
 
 def for_loop_shape(b, H):
@@ -522,12 +586,47 @@ def desugar_body(b, bodies, known_uses, log):
                 continue
             by_ref_first = (stages and stages[0][0] in ("filter", "inspect")) or (not stages and sink == "find")
             ety0 = first_param_ty[1:].lstrip() if by_ref_first and first_param_ty.startswith("&") else first_param_ty
+            if stages and stages[0][1] is None:
+                ety0 = elem_ty_of_iter(it_ty) or "?"  # (flatten first: what comes out of the source is not what the first closure takes)
             # a literal array as the source (`[a, b].into_iter().any(f)`): one copy of the element pipeline per element instead of a loop
             literal = literal_array_source(b, source) if sink != "for" else None
             if literal is not None and len(literal) > 6:
                 literal = None
+            chained = chain_sources(b, source) if sink != "for" else None
+            if chained is None and sink == "extend" and not stages:
+                sty_ = (source.get("p") or {}).get("ty") or (b["locals"][source["p"]["l"]]["ty"] if source["k"] in ("move", "copy") and not source["p"]["pr"] else "")
+                if sty_.startswith("std::option::Option<"):
+                    chained = [(source, sty_, None)]  # `set.extend(opt)`: the payload, if there is one
             starts = []
-            if literal is None:
+            if chained:
+                # one source after the other, each feeding its own copy of the element pipeline
+                blk["stmts"].pop()  # (the chain adaptor itself is not iterated)
+                nxt_entry = none
+                for (op_, ty_, cb_) in reversed(chained):
+                    if op_ is None:
+                        continue
+                    if ty_.startswith("std::option::Option<") or ty_.startswith("std::option::IntoIter<"):
+                        oty = "std::option::Option<" + ty_[ty_.index("<") + 1:]
+                        o_l = new_local(b, oty)
+                        d_l = new_local(b, "isize")
+                        e0 = new_local(b, ety0)
+                        some_ = new_block(b, [assign(P(e0, ty=ety0), use({"k": "move", "p": P(o_l, [{"dc": "Some"}, {"f": 0, "n": "0"}], ety0)}), loc)], None, loc)
+                        un_ = new_block(b, [], {"k": "unreachable"}, loc)
+                        ent_ = new_block(b, [assign(P(o_l, ty=oty), use(copy.deepcopy(op_)), loc), assign(P(d_l), {"k": "discr", "p": P(o_l, ty=oty)}, loc)],
+                                         {"k": "switch", "d": mv(d_l), "dty": "isize", "ts": [[0, nxt_entry], [1, some_]], "else": un_}, loc)
+                        starts.append((some_, e0, nxt_entry))
+                    else:
+                        ity_ = ("std::vec::IntoIter<" + ty_[len("std::vec::Vec<"):]) if ty_.startswith("std::vec::Vec<") else ty_
+                        it_k = new_local(b, ity_, "iter")
+                        head_, some_, opt_ = open_loop(it_k, ity_, nxt_entry)
+                        e0 = new_local(b, ety0)
+                        b["blocks"][some_]["stmts"].append(assign(P(e0, ty=ety0), use({"k": "move", "p": P(opt_, [{"dc": "Some"}, {"f": 0, "n": "0"}], ety0)}), loc))
+                        ent_ = new_block(b, [assign(P(it_k, ty=ity_), use(copy.deepcopy(op_)), loc)], goto(head_), loc)
+                        starts.append((some_, e0, head_))
+                    nxt_entry = ent_
+                starts.reverse()
+                first_bb = nxt_entry
+            elif literal is None:
                 head, some, opt_l = open_loop(it_l, it_ty, none)
                 e0 = new_local(b, ety0)
                 b["blocks"][some]["stmts"].append(assign(P(e0, ty=ety0), use({"k": "move", "p": P(opt_l, [{"dc": "Some"}, {"f": 0, "n": "0"}], ety0)}), loc))
@@ -618,6 +717,18 @@ def desugar_body(b, bodies, known_uses, log):
                         if si_ == len(stages) - 1 and sink == "extend" and coll and coll[0].startswith("std::vec::Vec<") and rty.startswith("std::vec::Vec<"):
                             last_flat = (res, rty)
                             break
+                        if rty.startswith("std::option::Option<"):
+                            # an Option yields its payload once or nothing: `if let Some(x) = opt { .. }`
+                            d3 = new_local(b, "isize")
+                            nxt3 = new_block(b, [], None, loc)
+                            un3 = new_block(b, [], {"k": "unreachable"}, loc)
+                            b["blocks"][cur_bb]["stmts"].append(assign(P(d3), {"k": "discr", "p": P(res, ty=rty)}, loc))
+                            b["blocks"][cur_bb]["term"] = {"k": "switch", "d": mv(d3), "dty": "isize", "ts": [[0, skip], [1, nxt3]], "else": un3}
+                            inner3 = rty[len("std::option::Option<"):-1]
+                            v3 = new_local(b, inner3)
+                            b["blocks"][nxt3]["stmts"].append(assign(P(v3, ty=inner3), use({"k": "move", "p": P(res, [{"dc": "Some"}, {"f": 0, "n": "0"}], inner3)}), loc))
+                            e_l, ety, cur_bb = v3, inner3, nxt3
+                            continue
                         ity2 = ("std::vec::IntoIter<" + rty[len("std::vec::Vec<"):]) if rty.startswith("std::vec::Vec<") else \
                             ("std::option::IntoIter<" + rty[len("std::option::Option<"):]) if rty.startswith("std::option::Option<") else rty
                         it2 = new_local(b, ity2, "iter")
@@ -727,6 +838,10 @@ def desugar_body(b, bodies, known_uses, log):
                 continue
             if sink == "for":
                 blk["term"] = goto(first_bb)
+            for (_op, _ty, cbk) in (chained or []):
+                st = b["blocks"][cbk]["term"] if cbk is not None else None
+                if st is not None and st["k"] == "call":
+                    b["blocks"][cbk]["term"] = goto(st["t"])
             # the stage calls become dead definitions: neutralise them so that they do not show up as call sites
             for (stage, sf, cbk, _fn) in stages:
                 st = b["blocks"][cbk]["term"]
@@ -1002,7 +1117,7 @@ def thread_accumulators(b, log):
                 if readers.get(R, []) != [(bj, sj)] or b["locals"][R].get("user"):
                     continue
                 defs = writers.get(R, [])
-                if not defs:
+                if not defs or any(bd in dirty for (bd, _sd) in defs):
                     continue
                 ok, chain = True, set()
                 for (bd, sd) in defs:
@@ -1154,7 +1269,7 @@ def thread_accumulators(b, log):
 OPT = "std::option::Option::<T>::"
 RES = "std::result::Result::<T, E>::"
 RES_COMB = ("map", "map_or", "and_then", "is_ok_and", "unwrap_or", "unwrap_or_default")
-OPT_COMB = ("map", "map_or", "map_or_else", "and_then", "is_some_and", "is_none_or", "unwrap_or_else", "filter", "or_else", "unwrap_or", "unwrap_or_default")
+OPT_COMB = ("map", "map_or", "map_or_else", "and_then", "is_some_and", "is_none_or", "unwrap_or_else", "filter", "or_else", "unwrap_or", "unwrap_or_default", "or")
 
 
 def opt_agg(variant, ops):
@@ -1431,6 +1546,26 @@ def desugar_option_combinators(b, bodies, known_uses, log):
             if known_uses is not None and (b["path"], fn["path"]) in known_uses:
                 continue
             args = t["args"]
+            if name == "or" and not is_res and len(args) == 2 and args[0]["k"] in ("move", "copy"):
+                # a.or(b): a if it is Some, otherwise b
+                loc = blk["tloc"]
+                dest, cont = t["dest"], t["t"]
+                oty = args[0]["p"].get("ty") or b["locals"][args[0]["p"]["l"]]["ty"]
+                src = new_local(b, oty or (TYPRE + "?>"))
+                d_l = new_local(b, "isize")
+                blk["stmts"].append(assign(P(src, ty=oty), use(copy.deepcopy(args[0])), loc))
+                blk["stmts"].append(assign(P(d_l), {"k": "discr", "p": P(src, ty=oty or (TYPRE + "?>"))}, loc))
+                inner = oty[len(TYPRE):-1] if oty.startswith(TYPRE) else "?"
+                # (said as `Some(payload)` so that a test of the result that follows knows the variant on this path)
+                some = new_block(b, [assign(copy.deepcopy(dest), adt_agg(ADT, YES, YES_I, [{"k": "move", "p": P(src, [{"dc": YES}, {"f": 0, "n": "0"}], inner)}]), loc)], goto(cont), loc)
+                none = new_block(b, [assign(copy.deepcopy(dest), use(copy.deepcopy(args[1])), loc)], goto(cont), loc)
+                unreach = new_block(b, [], {"k": "unreachable"}, loc)
+                blk["term"] = {"k": "switch", "d": mv(d_l), "dty": "isize", "ts": [[0, none], [1, some]], "else": unreach}
+                log.append("%s: Option::or written as a match" % b["path"])
+                did = True
+                break
+            if name == "or":
+                continue
             if name in ("unwrap_or", "unwrap_or_default") and args and args[0]["k"] in ("move", "copy"):
                 # no closure: Some(x) => x, None => the given / the default value
                 loc = blk["tloc"]
@@ -1685,6 +1820,96 @@ def desugar_bool_then(b, bodies, log):
         blk["term"] = {"k": "switch", "d": copy.deepcopy(t["args"][0]), "dty": "bool", "ts": [[0, no]], "else": yes}
         used.add(g["path"])
         log.append("%s: bool::then with a closure written as an if" % b["path"])
+    return used
+
+
+def split_known_unwraps(b, log):
+    """`x.expect(..)` / `x.unwrap()` where x was built as Some(..) on some paths and None on others (a spliced helper's `find_map(..)` result): written
+    as the match it is - the payload where x is Some, the same call (which can only panic) where it is None - so that each path keeps its own value"""
+    n = 0
+    for bi in range(len(b["blocks"])):
+        blk = b["blocks"][bi]
+        t = blk["term"]
+        if t is None or t["k"] != "call" or blk.get("cleanup") or t.get("t") is None:
+            continue
+        fn = callee_of(t)
+        if fn is None or fn["path"] not in ("std::option::Option::<T>::expect", "std::option::Option::<T>::unwrap") or not t["args"]:
+            continue
+        a = t["args"][0]
+        if a["k"] not in ("move", "copy") or a["p"]["pr"]:
+            continue
+        x = a["p"]["l"]
+        for _hop in range(4):
+            d = single_def(b, x)
+            if d and d[0] == "rv" and d[3]["k"] == "use" and d[3]["o"]["k"] in ("move", "copy") and not d[3]["o"]["p"]["pr"]:
+                x = d[3]["o"]["p"]["l"]
+            else:
+                break
+        defs = [st for blk2 in b["blocks"] if not blk2.get("cleanup") for st in blk2["stmts"] if st["k"] == "assign" and st["p"]["l"] == x]
+        calls = [blk2 for blk2 in b["blocks"] if not blk2.get("cleanup") and blk2["term"] is not None and blk2["term"]["k"] == "call" and blk2["term"]["dest"]["l"] == x]
+        if calls or len(defs) < 2 or any(st["p"]["pr"] or st["rv"]["k"] != "agg" or st["rv"].get("adt") != "std::option::Option" for st in defs):
+            continue
+        loc = blk["tloc"]
+        oty = a["p"].get("ty") or b["locals"][a["p"]["l"]]["ty"]
+        inner = oty[len("std::option::Option<"):-1] if oty.startswith("std::option::Option<") else "?"
+        src = new_local(b, oty)
+        d_l = new_local(b, "isize")
+        blk["stmts"].append(assign(P(src, ty=oty), use(copy.deepcopy(a)), loc))
+        blk["stmts"].append(assign(P(d_l), {"k": "discr", "p": P(src, ty=oty)}, loc))
+        some = new_block(b, [assign(copy.deepcopy(t["dest"]), use({"k": "move", "p": P(src, [{"dc": "Some"}, {"f": 0, "n": "0"}], inner)}), loc)], goto(t["t"]), loc)
+        t2 = copy.deepcopy(t)
+        t2["args"][0] = mv(src, oty)
+        t2["t"] = None  # (on None it never comes back)
+        none = new_block(b, [], t2, loc)
+        un = new_block(b, [], {"k": "unreachable"}, loc)
+        blk["term"] = {"k": "switch", "d": mv(d_l), "dty": "isize", "ts": [[0, none], [1, some]], "else": un}
+        n += 1
+    if n:
+        log.append("%s: %d unwrap / expect of a value built as Some or None on the way written as a match" % (b["path"], n))
+
+
+def inline_closure_calls(b, bodies, log):
+    """`let f = |x| ..; f(a)`: the call of a closure that is in scope is the closure's body with the arguments put in"""
+    used = set()
+    for bi in range(len(b["blocks"])):
+        blk = b["blocks"][bi]
+        t = blk["term"]
+        if t is None or t["k"] != "call" or blk.get("cleanup") or t.get("t") is None:
+            continue
+        fn = callee_of(t)
+        if fn is None or fn["path"] not in ("std::ops::Fn::call", "std::ops::FnMut::call_mut", "std::ops::FnOnce::call_once") or len(t["args"]) != 2:
+            continue
+        f = t["args"][0]
+        if f["k"] not in ("move", "copy") or f["p"]["pr"]:
+            continue
+        # the closure value: handed over itself, or borrowed just for the call
+        cl = f
+        d = single_def(b, f["p"]["l"])
+        if d and d[0] == "rv" and d[3]["k"] == "ref" and not d[3]["p"]["pr"]:
+            cl = {"k": "copy", "p": copy.deepcopy(d[3]["p"])}
+        g = closure_of_operand(b, cl, bodies)
+        if g is None or g is b:
+            continue
+        a = t["args"][1]
+        if a["k"] == "const":
+            ops = []
+        elif a["k"] in ("move", "copy") and not a["p"]["pr"]:
+            da = single_def(b, a["p"]["l"])
+            if not (da and da[0] == "rv" and da[3]["k"] == "agg" and da[3].get("ak") == "tuple"):
+                continue
+            ops = da[3]["ops"]
+        else:
+            continue
+        if g["arg_count"] != 1 + len(ops):
+            continue
+        loc = blk["tloc"]
+        loff_, boff_ = len(b["locals"]), len(b["blocks"])
+        pro, entry = splice(b, g, [env_rvalue(g, cl)] + [use(copy.deepcopy(o)) for o in ops], copy.deepcopy(t["dest"]), t["t"], loc)
+        instantiate_spliced_closure(b, cl, loff_, boff_, bodies)
+        blk["stmts"] += pro
+        blk["term"] = goto(entry)
+        used.add(g["path"])
+        log.append("%s: call of a local closure written as its body" % b["path"])
     return used
 
 
@@ -1968,6 +2193,8 @@ def inline_unknown(data, bodies, known, log):
                     loc = b["blocks"][bi]["tloc"]
                     loff, boff = len(b["locals"]), len(b["blocks"])
                     pro, entry = splice(b, g, [use(copy.deepcopy(a)) for a in t["args"]], t["dest"], t["t"], loc)
+                    if g.get("_fold"):
+                        b["_fold"] = True
                     gen = [x for x in (g.get("generics") or [])]
                     if gen and len(gen) == len(fn.get("gargs") or []):
                         mapping = {k: v for k, v in zip(gen, fn["gargs"]) if k != v and (re.match(r"^[A-Za-z_]\w*$", k) or k.startswith("impl "))}
@@ -2027,6 +2254,70 @@ def rewrite_idioms(b, log):
             n += 1
     if n:
         log.append("%s: %d single-character push(es) written as push_str" % (b["path"], n))
+    # v.pop() on a list that nothing else looks at (bound by a pattern, popped once, dropped)  ==  v.last(), handed over by value
+    k_ = 0
+    for bi, blk in enumerate(b["blocks"]):
+        t = blk["term"]
+        if t["k"] != "call" or blk.get("cleanup"):
+            continue
+        fn = callee_of(t)
+        if fn is None or fn["path"] != "std::vec::Vec::<T, A>::pop" or len(t["args"]) != 1:
+            continue
+        a = t["args"][0]
+        if a["k"] not in ("move", "copy") or a["p"]["pr"]:
+            continue
+        d = single_def(b, a["p"]["l"])
+        if not (d and d[0] == "rv" and d[3]["k"] == "ref" and d[3].get("mut") and not d[3]["p"]["pr"]):
+            continue
+        v = d[3]["p"]["l"]
+        if v <= b.get("arg_count", 0):
+            continue
+        others = 0
+        for bj, blk2 in enumerate(b["blocks"]):
+            if blk2.get("cleanup"):
+                continue
+            for sj, st in enumerate(blk2["stmts"]):
+                if st["k"] == "assign" and st["p"]["l"] == v and not st["p"]["pr"]:
+                    acc = set()
+                    locals_in(st["rv"], acc)
+                    if v in acc:
+                        others += 1
+                    continue  # (its definition)
+                if (bj, sj) == (d[1], d[2]):
+                    continue  # (the borrow for the pop)
+                acc = set()
+                locals_in(st, acc)
+                if v in acc:
+                    others += 1
+            t2 = blk2["term"]
+            if t2 is not None and t2["k"] != "drop":
+                acc = set()
+                locals_in(t2, acc)
+                if v in acc:
+                    others += 1
+        if others:
+            continue
+        # not inside a loop that does not also (re)define the list: one pop per list
+        vdefs = [bj for bj, blk2 in enumerate(b["blocks"]) for st in blk2["stmts"] if st["k"] == "assign" and st["p"]["l"] == v and not st["p"]["pr"]]
+        if len(vdefs) != 1 or bi not in dominated(b, vdefs[0]):
+            continue
+        region = dominated(b, vdefs[0])
+        stack_, seen_, cyc = [x for x in succs(blk) if x in region], set(), False
+        while stack_:
+            x = stack_.pop()
+            if x == bi:
+                cyc = True
+                break
+            if x in seen_ or x not in region or x == vdefs[0]:
+                continue
+            seen_.add(x)
+            stack_ += [y for y in succs(b["blocks"][x])]
+        if cyc:
+            continue
+        t["f"] = fn_operand("core::slice::<impl [T]>::last", list(fn.get("gargs") or [])[:1], krate="core")
+        k_ += 1
+    if k_:
+        log.append("%s: %d pop() of a list nothing else looks at written as last()" % (b["path"], k_))
     # HashSet::from([a, b]) / BTreeSet::from([..]) / Vec::from([..])  ==  new() followed by one insert / push per element
     m = 0
     for bi in range(len(b["blocks"])):
@@ -2113,6 +2404,137 @@ def devirtualise(b, log):
         log.append("%s: %d call(s) through a function value resolved to the function" % (b["path"], n))
 
 
+def devirtualise_choice(b, log):
+    """a call through a function value that was chosen among function items on the way (`let f = match kind { A => fa, B => fb }; f(x)`): the choice is
+    remembered in a tag next to the value and the call becomes one direct call per choice, selected by the tag - the same calls the same paths make"""
+    n = 0
+    for bi in range(len(b["blocks"])):
+        blk = b["blocks"][bi]
+        t = blk["term"]
+        if t is None or t["k"] != "call" or blk.get("cleanup") or t.get("t") is None:
+            continue
+        f = t["f"]
+        if f["k"] not in ("move", "copy") or f["p"]["pr"]:
+            continue
+        F = f["p"]["l"]
+        for _hop in range(6):
+            d = single_def(b, F)
+            if d and d[0] == "rv" and d[3]["k"] == "use" and d[3]["o"]["k"] in ("move", "copy") and not d[3]["o"]["p"]["pr"]:
+                F = d[3]["o"]["p"]["l"]
+            else:
+                break
+        if F <= b.get("arg_count", 0):
+            continue
+        defs = []
+        ok = True
+        for bj, blk2 in enumerate(b["blocks"]):
+            if blk2.get("cleanup"):
+                continue
+            for sj, st in enumerate(blk2["stmts"]):
+                if st["k"] == "assign" and st["p"]["l"] == F:
+                    if st["p"]["pr"]:
+                        ok = False
+                        continue
+                    rv = st["rv"]
+                    item = None
+                    if rv["k"] == "use":
+                        item = resolve_fn_value(b, rv["o"])
+                    elif rv["k"] == "cast" and "ReifyFnPointer" in rv.get("ck", ""):
+                        item = resolve_fn_value(b, rv["o"])
+                    if item is None:
+                        ok = False
+                    defs.append((bj, sj, item))
+            t2 = blk2["term"]
+            if t2 is not None and t2["k"] == "call" and t2["dest"]["l"] == F:
+                ok = False
+        if not ok or len(defs) < 2 or len(defs) > 40:
+            continue
+        # F must not be written through a reference: any `&mut F` disqualifies
+        refd = False
+        for blk2 in b["blocks"]:
+            for st in blk2["stmts"]:
+                if st["k"] == "assign" and st["rv"]["k"] == "ref" and st["rv"]["p"]["l"] == F and st["rv"].get("mut"):
+                    refd = True
+        if refd:
+            continue
+        loc = blk["tloc"]
+        # the choice was made by the arms of one match: find its switch and the value it tested
+        preds = {}
+        live_ = dominated(b, 0)
+        for bj, blk2 in enumerate(b["blocks"]):
+            if blk2.get("cleanup") or blk2["term"] is None or bj not in live_:
+                continue
+            for x in succs(blk2):
+                preds.setdefault(x, []).append(bj)
+        S0 = None
+        labels = []
+        for (bj, _sj, _item) in defs:
+            cur = bj
+            for _hop in range(4):
+                ps = preds.get(cur, [])
+                if len(set(ps)) == 1 and b["blocks"][ps[0]]["term"]["k"] == "goto" and not b["blocks"][ps[0]]["stmts"]:
+                    cur = ps[0]
+                else:
+                    break
+            ps = set(preds.get(cur, []))
+            if len(ps) != 1:
+                S0 = None
+                break
+            s0 = ps.pop()
+            t0 = b["blocks"][s0]["term"]
+            if t0["k"] != "switch" or (S0 is not None and s0 != S0):
+                S0 = None
+                break
+            S0 = s0
+            vs = [v for (v, x) in t0["ts"] if x == cur]
+            labels.append((vs, t0["else"] == cur))
+        if S0 is None or bi not in dominated(b, S0) or len(set(bj for (bj, _s, _i) in defs)) != len(defs):
+            continue
+        t0 = b["blocks"][S0]["term"]
+        if sum(1 for (_vs, e_) in labels if e_) > 1 or any(not vs and not e_ for (vs, e_) in labels) or t0["d"]["k"] not in ("move", "copy") or t0["d"]["p"]["pr"]:
+            continue
+        dl = t0["d"]["p"]["l"]
+        dst = [st for st in b["blocks"][S0]["stmts"] if st["k"] == "assign" and st["p"]["l"] == dl and not st["p"]["pr"]]
+        if len(dst) != 1 or dst[0]["rv"]["k"] != "discr" or single_def(b, dl) is None:
+            continue
+        subject = dst[0]["rv"]["p"]
+        if any(e != "deref" for e in subject["pr"]):
+            continue
+        L = subject["l"]
+        # the tested value must still be what it was: it is defined once and nothing but tests of its variant looks at it
+        occurrences = 0
+        for blk2 in b["blocks"]:
+            if blk2.get("cleanup"):
+                continue
+            for st in blk2["stmts"]:
+                acc = set()
+                locals_in(st, acc)
+                if L in acc and not (st["k"] == "assign" and st["rv"]["k"] == "discr" and st["rv"]["p"]["l"] == L and st["p"]["l"] != L):
+                    occurrences += 1
+            acc = set()
+            locals_in(blk2["term"], acc)
+            if L in acc and blk2["term"]["k"] != "drop":
+                occurrences += 2
+        if occurrences != (0 if L <= b.get("arg_count", 0) else 1):
+            continue
+        d2 = new_local(b, b["locals"][dl]["ty"])
+        blk["stmts"].append(assign(P(d2, ty=b["locals"][dl]["ty"]), {"k": "discr", "p": copy.deepcopy(subject)}, loc))
+        targets, other = [], None
+        for k, (_bj, _sj, item) in enumerate(defs):
+            cb = new_block(b, [], call(copy.deepcopy(item), copy.deepcopy(t["args"]), copy.deepcopy(t["dest"]), t["t"], loc), loc)
+            b["blocks"][cb]["term"]["cleanup"] = t.get("cleanup")
+            for v in labels[k][0]:
+                targets.append([v, cb])
+            if labels[k][1]:
+                other = cb
+        if other is None:
+            other = new_block(b, [], {"k": "unreachable"}, loc)
+        blk["term"] = {"k": "switch", "d": mv(d2), "dty": t0["dty"], "ts": sorted(targets, key=lambda x: x[0]), "else": other}
+        n += 1
+    if n:
+        log.append("%s: %d call(s) through a chosen function value written as one direct call per choice of the match that chose it" % (b["path"], n))
+
+
 # ------------------------------------------------------------------ named constants
 
 
@@ -2147,44 +2569,64 @@ def resolve_named_consts(data, log):
         last = st[-1]
         if not (last["k"] == "assign" and last["p"]["l"] == 0 and not last["p"]["pr"] and last["rv"]["k"] == "agg" and last["rv"].get("ak") == "array"):
             continue
-        elems = {}
+        # every statement before it builds a temporary out of literals, variants, tuples and earlier temporaries (no calls, no reads of anything else)
+        defined = set()
         ok = True
         for e in st[:-1]:
             if e["k"] in ("storage_live", "storage_dead", "nop", "live", "dead"):
                 continue
-            if not (e["k"] == "assign" and not e["p"]["pr"] and e["p"]["l"] not in elems and
-                    ((e["rv"]["k"] == "agg" and e["rv"].get("ak") == "adt" and not e["rv"]["ops"]) or (e["rv"]["k"] == "use" and e["rv"]["o"]["k"] == "const"))):
+            if not (e["k"] == "assign" and not e["p"]["pr"] and e["p"]["l"] not in defined and e["p"]["l"] != 0):
                 ok = False
                 break
-            elems[e["p"]["l"]] = e
+            rv = e["rv"]
+            if rv["k"] == "agg" and rv.get("ak") in ("adt", "tuple", "array"):
+                opsx = rv["ops"]
+            elif rv["k"] == "use":
+                opsx = [rv["o"]]
+            else:
+                ok = False
+                break
+            for o in opsx:
+                if o["k"] == "const":
+                    continue
+                if o["k"] in ("move", "copy") and not o["p"]["pr"] and o["p"]["l"] in defined:
+                    continue
+                ok = False
+            if not ok:
+                break
+            defined.add(e["p"]["l"])
         ops = last["rv"]["ops"]
-        if not ok or not all(o["k"] in ("move", "copy") and not o["p"]["pr"] and o["p"]["l"] in elems for o in ops) or len(set(o["p"]["l"] for o in ops)) != len(ops):
+        if not ok or not all(o["k"] == "const" or (o["k"] in ("move", "copy") and not o["p"]["pr"] and o["p"]["l"] in defined) for o in ops):
             continue
-        built[b["path"]] = ([elems[o["p"]["l"]] for o in ops], last["rv"], [b["locals"][o["p"]["l"]]["ty"] for o in ops])
+        built[b["path"]] = ([e for e in st[:-1] if e["k"] == "assign"], last["rv"], b["locals"])
     nb = 0
     if built:
         for b in data["bodies"]:
+            if str(b.get("kind", "")).startswith("Const"):
+                continue
             for blk in b["blocks"]:
                 i = 0
                 while i < len(blk["stmts"]):
                     st = blk["stmts"][i]
                     if st["k"] == "assign" and st["rv"]["k"] == "use" and st["rv"]["o"]["k"] == "const" and st["rv"]["o"].get("disp") in built \
                             and "str" not in st["rv"]["o"] and "int" not in st["rv"]["o"] and "fn" not in st["rv"]["o"]:
-                        elems, arr, tys = built[st["rv"]["o"]["disp"]]
-                        pre, ops = [], []
-                        for e, ty in zip(elems, tys):
-                            nl = new_local(b, ty)
-                            pre.append(assign(P(nl, ty=ty), copy.deepcopy(e["rv"]), st["loc"]))
-                            ops.append(mv(nl, ty))
-                        rv = copy.deepcopy(arr)
-                        rv["ops"] = ops
-                        st["rv"] = rv
+                        stmts_, arr, clocals = built[st["rv"]["o"]["disp"]]
+                        lmap = {}
+                        pre = []
+                        for e in stmts_:
+                            nl = new_local(b, clocals[e["p"]["l"]]["ty"])
+                            lmap[e["p"]["l"]] = nl
+                        for e in stmts_:
+                            ne = rename(e, lmap, {})
+                            ne["loc"] = st["loc"]
+                            pre.append(ne)
+                        st["rv"] = rename(arr, lmap, {})
                         blk["stmts"][i:i] = pre
                         i += len(pre)
                         nb += 1
                     i += 1
         if nb:
-            log.append("%d use(s) of named constant arrays of field-less variants replaced by the array literal" % nb)
+            log.append("%d use(s) of named constant arrays built from variants / tuples replaced by the array literal" % nb)
     na = 0
     if arrs:
         for b in data["bodies"]:
@@ -2442,24 +2884,56 @@ def thread_bool_jumps(b, log):
             for x, (_k, val, carriers) in vals.items():
                 xb = b["blocks"][x]
                 lmap = {}
-                if not all_const:
-                    carriers = set(carriers) | chain_assigned
-                    allowed = set(chain) | set(ps)
+                tgt = t["else"]
+                for (v, bb) in t["ts"]:
+                    if v == val:
+                        tgt = bb
+                region = []
+                allowed = set(chain) | set(ps)
+                if any(not (uses.get(l, set()) <= allowed) for l in carriers) and preds.get(tgt, []) == [si] and tgt not in allowed:
+                    # the tested value is looked at again where the test leads (`Some(x) => x`): that part, as far as only this way leads
+                    # there, is copied along with the chain, so that what it reads is what this path put there
+                    reg = dominated(b, tgt)
+                    if len(reg) <= OR_PATTERN_BODY_LIMIT and not (reg & allowed):
+                        region = sorted(reg)
+                        allowed |= reg
+                        # (what the test's other outcomes lead to alone is reached from the original test only: it goes on reading the original)
+                        for (_v2, t2_) in list(t["ts"]) + [[None, t["else"]]]:
+                            if t2_ != tgt and preds.get(t2_, []) == [si] and t2_ not in allowed:
+                                reg2 = dominated(b, t2_)
+                                if len(reg2) <= OR_PATTERN_BODY_LIMIT:
+                                    allowed |= reg2
+                if not all_const or region:
+                    # (what else the chain assigns - a borrow, a closure built for later - is assigned the same in the copy: one value, two places)
+                    carriers = set(carriers) | set(l for l in chain_assigned if uses.get(l, set()) <= allowed)
+                    if region:
+                        # what the copied part computes for itself is its own as well
+                        inside_defs, outside_defs = set(), set()
+                        for i_, blk_ in enumerate(b["blocks"]):
+                            if blk_.get("cleanup") or i_ not in live:
+                                continue
+                            tgt_set = inside_defs if i_ in region else outside_defs
+                            for st_ in blk_["stmts"]:
+                                if st_["k"] == "assign":
+                                    tgt_set.add(st_["p"]["l"])
+                            if blk_["term"]["k"] == "call":
+                                tgt_set.add(blk_["term"]["dest"]["l"])
+                        carriers |= set(l for l in inside_defs - outside_defs if uses.get(l, set()) <= allowed and l > b["arg_count"])
                     if any(not (uses.get(l, set()) <= allowed) for l in carriers) or any(l <= b["arg_count"] for l in carriers):
-                        continue
+                        if not all_const:
+                            continue
+                        carriers, region = set(), []
                     for l in sorted(carriers):
                         b["locals"].append(copy.deepcopy(b["locals"][l]))
                         lmap[l] = len(b["locals"]) - 1
-                bmap = {c: len(b["blocks"]) + k for k, c in enumerate(chain)}
+                bmap = {c: len(b["blocks"]) + k for k, c in enumerate(list(chain) + region)}
                 for c in chain:
                     nb = rename(b["blocks"][c], lmap, bmap)
                     if c == si:
-                        tgt = t["else"]
-                        for (v, bb) in t["ts"]:
-                            if v == val:
-                                tgt = bb
-                        nb["term"] = goto(tgt)
+                        nb["term"] = goto(bmap.get(tgt, tgt))
                     b["blocks"].append(nb)
+                for c in region:
+                    b["blocks"].append(rename(b["blocks"][c], lmap, bmap))
                 if lmap:
                     xb["stmts"] = rename(xb["stmts"], lmap, {})
                 xb["term"] = goto(bmap[J])
@@ -2575,6 +3049,11 @@ def dominated(b, j):
     return rj - seen
 
 
+# an arm body larger than this is not an arm that does something with the bound value but a `let x = match v { A(x) | B(x) => x, .. };` followed by
+# the rest of the function: there the binding keeps its two definitions (as `let x = if .. { a } else { b }` has)
+OR_PATTERN_BODY_LIMIT = 40
+
+
 def unmerge_or_patterns(b, log):
     """an or-pattern with bindings (`A(x) | B(x) => body`) is lowered to one binding block per alternative that all jump to a shared body; give every
     alternative its own copy of the body so that each binding has a single definition (the shape of separate arms)"""
@@ -2597,7 +3076,7 @@ def unmerge_or_patterns(b, log):
             if any(x is None for x in bound) or len(set(bound)) != 1:
                 continue
             region = dominated(b, j)
-            if j not in region or len(region) > 400:
+            if j not in region or len(region) > OR_PATTERN_BODY_LIMIT:
                 continue
             # locals that live entirely inside the region and the binding blocks get a fresh copy per alternative
             inside = set(region) | set(ps)
@@ -2829,7 +3308,7 @@ def unmerge_match_values(b, log):
             if not common or len(set(flat)) != len(flat) or all(tuple(bd) == tuple(bounds[0]) and len(c) == 1 for bd, c in zip(bounds, chains)):
                 continue  # (the plain or-pattern shape is unmerge_or_patterns' business)
             region = dominated(b, j)
-            if j not in region or len(region) > 400:
+            if j not in region or len(region) > OR_PATTERN_BODY_LIMIT:
                 continue
             inside = set(region) | set(flat)
             used_in, used_out = set(), set()
@@ -2961,7 +3440,11 @@ def recognise_renames(data, ref, log):
         inv = {v: k for k, v in mp.items()}
         tr = lambda xs: [mp.get(x, x) for x in xs]
         s_ = 0.0
-        unref = lambda t: re.sub(r"^&('\w+ )?(mut )?", "", t).strip()
+        def unref(t):
+            t = re.sub(r"^&('\w+ )?(mut )?", "", t).strip()
+            if t.startswith("std::boxed::Box<") and t.endswith(">"):
+                t = t[len("std::boxed::Box<"):-1]
+            return t
         if c["args"] == r["args"] and c["ret"] == r["ret"]:
             s_ += 2.0
         elif [unref(a) for a in c["args"]] == [unref(a) for a in r["args"]] and c["ret"] == r["ret"]:
@@ -3060,6 +3543,11 @@ def preprocess(data, known=None, known_uses=None):
 
     # phase 1: rewrites local to one body
     for b in todo:
+        # the end of a value's scope is no event for any rule (what Drop impls do is std's or solang's business, C04's callee table): a scope-end
+        # drop is a plain jump, so that the paths through a function are not chopped up by them
+        for blk in b["blocks"]:
+            if not blk.get("cleanup") and blk["term"] is not None and blk["term"]["k"] == "drop" and not os.environ.get("KEEPDROP"):
+                blk["term"] = goto(blk["term"]["t"])
         guarded("idiom rewriting", rewrite_idioms, b, log)
         guarded("`?` desugaring", desugar_try, b, log)
         guarded("jump threading", thread_bool_jumps, b, log)
@@ -3075,7 +3563,8 @@ def preprocess(data, known=None, known_uses=None):
     # phase 2: closures are spliced into their users, innermost closures first so that what is spliced is already normalised
     for b in sorted(todo, key=lambda b_: -b_["path"].count("{closure#")):
         guarded("diverging unwrap_or_else", diverging_unwrap_or_else, b, bodies, log)
-        for what, fn_ in (("bool::then desugaring", lambda b_: desugar_bool_then(b_, bodies, log)),
+        for what, fn_ in (("local closure calls", lambda b_: inline_closure_calls(b_, bodies, log)),
+                          ("bool::then desugaring", lambda b_: desugar_bool_then(b_, bodies, log)),
                           ("retain desugaring", lambda b_: desugar_retain(b_, bodies, known_uses, log)),
                           ("Option combinator desugaring", lambda b_: desugar_option_combinators(b_, bodies, known_uses, log)),
                           ("adaptor desugaring", lambda b_: desugar_body(b_, bodies, known_uses, log))):
@@ -3092,7 +3581,8 @@ def preprocess(data, known=None, known_uses=None):
         for b in data["bodies"]:
             if b["path"] in touched and b["path"] not in dropped:
                 guarded("diverging unwrap_or_else", diverging_unwrap_or_else, b, bodies, log)
-                for what, fn_ in (("bool::then desugaring", lambda b_: desugar_bool_then(b_, bodies, log)),
+                for what, fn_ in (("local closure calls", lambda b_: inline_closure_calls(b_, bodies, log)),
+                                  ("bool::then desugaring", lambda b_: desugar_bool_then(b_, bodies, log)),
                                   ("retain desugaring", lambda b_: desugar_retain(b_, bodies, known_uses, log)),
                                   ("Option combinator desugaring", lambda b_: desugar_option_combinators(b_, bodies, known_uses, log)),
                                   ("adaptor desugaring", lambda b_: desugar_body(b_, bodies, known_uses, log))):
@@ -3108,6 +3598,8 @@ def preprocess(data, known=None, known_uses=None):
             devirtualise(b, log)
         except Exception as e:
             log.append("%s: devirtualisation failed: %s" % (b["path"], e))
+        guarded("devirtualisation of chosen functions", devirtualise_choice, b, log)
+        guarded("unwrap of built options", split_known_unwraps, b, log)
         try:
             thread_bool_jumps(b, log)
         except Exception as e:
